@@ -22,11 +22,11 @@ Check C11_user_file_untouched : forall rec e t f before w,
 Print Assumptions C11_user_file_untouched.
 
 (* deciding whether something is dirty never touches a file *)
-Theorem C11_check_readonly : forall fuel runid w c f r mx seen v w' c' evs,
-  is_dirty fuel runid w c f r mx seen = Ret (v, w', c', evs) -> fs w' = fs w.
+Theorem C11_check_readonly : forall fuel runid cyc w c f r mx seen v w' c' evs,
+  is_dirty fuel runid cyc w c f r mx seen = Ret (v, w', c', evs) -> fs w' = fs w.
 Proof. exact is_dirty_fs. Qed.
-Check C11_check_readonly : forall fuel runid w c f r mx seen v w' c' evs,
-  is_dirty fuel runid w c f r mx seen = Ret (v, w', c', evs) -> fs w' = fs w.
+Check C11_check_readonly : forall fuel runid cyc w c f r mx seen v w' c' evs,
+  is_dirty fuel runid cyc w c f r mx seen = Ret (v, w', c', evs) -> fs w' = fs w.
 Print Assumptions C11_check_readonly.
 
 (* finishing a job touches only the job's own target and its $3 *)
